@@ -1080,7 +1080,18 @@ func (self *Node) indexOrGet(idx int, key string) (*Node, int) {
 		return &pr.Value, idx
 	}
 
-	return self.skipKey(key)
+	n, i := self.skipKey(key)
+	if i > 0 && !self.isLazy() {
+		if p := (*linkedPairs)(self.p); p.Len() != self.len() {
+			// some pairs got unset, don't count them (as Index and IndexPair do)
+			for j := i - 1; j >= 0; j-- {
+				if v := p.At(j); v == nil || !v.Value.Exists() {
+					i--
+				}
+			}
+		}
+	}
+	return n, i
 }
 
 // IndexOrGet firstly use idx to index a value and check if its key matches
